@@ -342,6 +342,25 @@ def unsolvable_block(ctx, rng):
             h = np.float64(rng.choice([1.0, 0.5]) * np.sign(y0[0]))        # toward the blow-up
             integ = Rec((1,), dtype=np.float64)
             inp = dict(kind="unsolvable-stage-equations", method=cls.__name__, y=y0.tolist(), h=float(h))
+            if rep % 2 == 0 and cls.__name__ != "RadauIIA19":
+                # a user's own step-size controller through the public `adaptation_fn` property (it holds the step): whoever proposes
+                # the step sizes, an unsolved stage system is never handed back
+                try:
+                    ig2 = Rec((1,), dtype=np.float64)
+                    n_before = len(log)
+                    ig2.adaptation_fn = (lambda self_: (self_.solver_dict.get("timestep", 1.0) if self_.solver_dict and "timestep" in self_.solver_dict else 1.0, False))
+                    inp2 = dict(inp, controller="user adaptation_fn holding the step")
+                    try:
+                        dt2, (dT2, dY2) = ig2(DS.DiffRHS(lambda t, y: 1.0 + y ** 2), np.float64(0.0), y0.copy(), {}, h)
+                        mine = log[n_before:]
+                        ok2 = len(mine) > 0 and mine[-1][1] is True and bool(np.all(np.isfinite(dY2)))
+                        ctx.oracle("only-converged-steps-accepted", ok2, dict(inp2, attempts=len(mine), last=mine[-2:], dT=float(dT2)), key="unconverged-step-accepted-with-user-controller",
+                                   what="with a user step controller __call__ handed back a step (dTime %r) whose stage solve had not converged" % (float(dT2),))
+                        ctx.count("unsolvable-user-controller:returned")
+                    except de.exception_types.FailedToMeetTolerances:
+                        ctx.count("unsolvable-user-controller:refused")
+                except Exception as e:
+                    ctx.count("unsolvable-user-controller:setup-exception:" + type(e).__name__)
             try:
                 dt, (dT, dY) = integ(DS.DiffRHS(lambda t, y: 1.0 + y ** 2), np.float64(0.0), y0.copy(), {}, h)
                 ok = len(log) > 0 and log[-1][1] is True and bool(np.all(np.isfinite(dY)))
